@@ -5,6 +5,13 @@ from __future__ import annotations
 
 import math
 
+# module-level floats that share their names with arguments of the functions below (as in a script that keeps default
+# values next to its rate laws): inside a function the argument is what counts
+km = 0.5
+kf = 1.25
+n = 3.0
+i = 0.75
+
 
 def t_const(k: float) -> float:
     return k
